@@ -11,6 +11,9 @@ from props import _msk
 ID = 'C07'
 LEAN_MODULES = ['Proofs.C07']
 REQUIRED = ['C07.pool_map_schedule_indep', 'C07.getNextImfMask_spec', 'C07.getNextImfMask_flag',
+            # the documented waveform: phase grid, argument, amplitude as model definitions over the single oracle cosTurn
+            'C07.mask_phases_equally_spaced', 'C07.mask_phase_grid', 'C07.getNextImfMask_wave_spec', 'C07.mask_shift_closed',
+            'C07.maskSift_peel_wave',
             'C07.getNextImfMask_schedule_indep', 'C07.getNextImfMask_zero_amp',
             'C07.maskFreqs_ladder', 'C07.maskFreqs_user_list', 'C07.maskAmp_modes',
             'C07.maskSift_peel', 'C07.maskSift_returns_used_freqs', 'C07.maskSift_schedule_indep',
@@ -24,7 +27,12 @@ REQUIRED = ['C07.pool_map_schedule_indep', 'C07.getNextImfMask_spec', 'C07.getNe
 TRUSTED = [
     'oracle: single-IMF extraction X = the real emd.sift.get_next_imf, tabulated on the masked signals of the same run '
     '(looked up by argument within 1e-9)',
-    'oracle: cos — the harness computes the unit masks cos(2 pi f t + 2 pi i / nphases); this formula is the documented rule',
+    'oracle: cosTurn(x) = cos(2 pi x) — the ONLY numerical ingredient of a mask. The phase grid i/nphases, the argument z t + i/nphases '
+    'and the amplitude factor are definitions of the model (Mask.maskPhase / unitOf / waveMask, theorem C07.mask_phase_grid); the harness '
+    'supplies numpy cosine values at the points f t + i/p of the run (GNIM: keyed by (t, i); MASKSIFT: by (f, i, t)) and the driver looks '
+    'them up by argument (exactly for GNIM, within 1e-12 for the ladder frequencies, which the model computes in exact rationals); '
+    'cos(a + pi) = -cos(a) is validated on the tables (stream cos_oracle, kind oracle:cos-half-turn), and the masks the implementation '
+    'really adds are observed at the public get_next_imf and compared with the waveform (kind mask-not-documented-waveform)',
     'oracle: np.std (tabulated on the signal and on every column)',
     'oracle: get_mask_freqs for the zc / if sources (the first frequency is taken from the public function)',
     'multiprocessing.Pool.starmap modelled as: every job executed exactly once by some worker, results collected by job index',
@@ -148,10 +156,10 @@ class Gnim(_Cached):
     def ops(self, case, out):
         x, sp = self._spec(case)
         if sp is None:
-            return [proto.op('GNIM', {'p': 0, 'tol': _msk.TOL, 'rot': 0}, [_msk.vlist(x)])]
+            return [proto.op('GNIM', {'p': 0, 'tol': _msk.TOL, 'rot': 0, 'z': case['z'], 'amp': case['amp']}, [_msk.vlist(x)])]
         imf, flag, rows = sp
-        masks = [r[0] for r in rows]
-        return [_msk.gnim_op(x, masks, rows, _tol(x, abs(case['amp'])), len(case['nprocs']) + case['nphases'])]
+        return [_msk.gnim_op(x, case['z'], case['amp'], case['nphases'], rows, _tol(x, abs(case['amp'])),
+                             len(case['nprocs']) + case['nphases'])]
 
     def compare(self, case, out, results):
         r = results[0]
@@ -568,4 +576,95 @@ class PoolOrder(Stream):
         return not isinstance(out, ImplError) and len(set(out['workers'])) >= 2
 
 
-STREAMS = [Gnim(), MaskSift(), PoolOrder()]
+class CosOracle(Stream):
+    """Validator of the model's single numerical oracle cosTurn(x) = cos(2 pi x) as the harness tabulates it
+    (half-turn antisymmetry: hypothesis of C07.mask_shift_closed / C02.maskSift_ratio_smul_neg_cos), and instance check
+    of the waveform on the implementation: the masked signals get_next_imf_mask really hands to get_next_imf (observed by
+    wrapping the public attribute, per-pid trace files) minus the input are amp * cos(2 pi z t + 2 pi i / nphases)."""
+    name = 'cos_oracle'
+    parallel = False
+
+    def corpus(self):
+        return [{'z': 0.2, 'n': 64, 'p': 4, 'amp': 1.5, 'seed': 1}, {'z': 0.25, 'n': 32, 'p': 2, 'amp': 1.0, 'seed': 2},
+                {'z': 0.0, 'n': 16, 'p': 8, 'amp': 0.5, 'seed': 3}, {'z': 0.4, 'n': 512, 'p': 6, 'amp': 250.0, 'seed': 4},
+                {'z': 0.37, 'n': 100, 'p': 1, 'amp': 2.0, 'seed': 5}, {'z': 0.11, 'n': 48, 'p': 7, 'amp': 0.01, 'seed': 6}]
+
+    def generate(self, rng, tier):
+        for _ in range(150 if tier == 'thorough' else 25):
+            yield {'z': rng.choice([0.25, 0.125, rng.uniform(0.003, 0.49), rng.uniform(0.003, 0.49)]),
+                   'n': rng.choice(SIZES_T if tier == 'thorough' else SIZES_Q), 'p': rng.randint(1, 8),
+                   'amp': rng.choice([1.0, rng.uniform(0.05, 3.0), 250.0, 0.01]), 'seed': rng.randrange(1 << 30)}
+
+    def impl(self, case):
+        import emd
+        n, z, p, amp = case['n'], case['z'], case['p'], case['amp']
+        u = _msk.unit_masks(n, z, p)
+        t = np.arange(n)
+        res = {'max_abs': max(float(np.max(np.abs(v))) for v in u), 'at0': float(u[0][0]), 'half': 0.0, 'grid': 0.0}
+        if p % 2 == 0:
+            res['half'] = max(float(np.max(np.abs(u[(i + p // 2) % p] + u[i]))) for i in range(p))
+        # the table is the cosine of the documented argument, phases equally spaced by 1/p of a turn
+        res['grid'] = max(float(np.max(np.abs(u[i] - np.cos(2 * np.pi * (z * t + i / p))))) for i in range(p))
+        x = _msk.make_signal({'fam': 'tones', 'n': n, 'seed': case['seed'], 'scale': 1.0})
+        with _msk.TraceDir() as td:
+            def before(a, k):
+                td.log(np.ascontiguousarray(np.asarray(a[0], dtype=float).ravel()).tobytes())
+            with _msk.wrapped_public(emd.sift, 'get_next_imf', before), _msk.time_limit(60):
+                try:
+                    emd.sift.get_next_imf_mask(x, z, amp, nphases=p, nprocesses=min(p, 1 + case['seed'] % 3))
+                except Exception as e:  # noqa  (a non-converging extraction does not matter here: the arguments were recorded)
+                    res['raised'] = type(e).__name__
+            seen = []
+            for data in td.files().values():
+                a = np.frombuffer(data, dtype=float)
+                seen += [a[j:j + n] for j in range(0, len(a) - n + 1, n)]
+        res['njobs'] = len(seen)
+        want = [amp * v for v in u]
+        dev, used = 0.0, []
+        for a in seen:
+            m = a - x
+            d = [float(np.max(np.abs(m - w))) for w in want]
+            i = int(np.argmin(d))
+            used.append(i)
+            dev = max(dev, d[i])
+        res['mask_dev'] = dev
+        res['phases_used'] = sorted(used)
+        return res
+
+    def ops(self, case, out):
+        return []
+
+    def compare(self, case, out, results):
+        return None
+
+    def holds(self, case, out):
+        if isinstance(out, ImplError):
+            return [Failure('raises:' + out['error'], out.get('msg', ''))]
+        fs = []
+
+        def oracle(kind, detail):
+            f = Failure(kind, detail)
+            f.literal = False          # a broken oracle means the theorems no longer apply to the deployed numpy
+            fs.append(f)
+        arg = 2 * np.pi * (0.5 * case['n'] + 1)
+        eps = 4e-16 * arg + 1e-15
+        if out['half'] > eps:
+            oracle('oracle:cos-half-turn', 'max |cos(a + pi) + cos(a)| = %.3g on the table of z=%r p=%d' % (out['half'], case['z'], case['p']))
+        if out['max_abs'] > 1.0 or out['at0'] != 1.0 or out['grid'] > eps:
+            oracle('oracle:cos-table', 'max|cos|=%r cos(0)=%r grid deviation %.3g' % (out['max_abs'], out['at0'], out['grid']))
+        if out['njobs'] != case['p'] or out['phases_used'] != list(range(case['p'])):
+            fs.append(Failure('mask-phases-not-the-documented-grid', 'observed %d extraction jobs, nearest documented phases %s (nphases=%d)'
+                              % (out['njobs'], out['phases_used'], case['p'])))
+        elif out['mask_dev'] > _msk.TOL * max(1.0, abs(case['amp'])):
+            fs.append(Failure('mask-not-documented-waveform', 'observed masks deviate %.3g from amp*cos(2 pi z t + 2 pi i/p), z=%r amp=%r p=%d'
+                              % (out['mask_dev'], case['z'], case['amp'], case['p'])))
+        return fs
+
+    def tags(self, case, out):
+        return ['nphases=%d' % case['p'], 'even' if case['p'] % 2 == 0 else 'odd', 'z=0.25' if case['z'] == 0.25 else 'z=other']
+
+    def nontrivial(self, case, out):
+        return not isinstance(out, ImplError) and case['p'] >= 2
+
+
+STREAMS = [Gnim(), MaskSift(), PoolOrder(), CosOracle()]
